@@ -36,12 +36,15 @@ const KINDS = {
   tplDyn: { v: '={`t${x}`}', dyn: true, only: ['id', 'class'] },
   arrAsConst: { v: '={[1, 2] as const}', dyn: false, ts: true, only: ['id'] },
 };
+// ordinary props whose names merely begin like a special one (ref, key, on + lower-case letter, class, style)
+const LOOKALIKES = ['referrerpolicy', 'refresh', 'keyboard', 'once', 'classes', 'styles'];
 const ATOMS = [];
 for (const n of NAMES) for (const k of Object.keys(KINDS)) {
   if (k === 'dynCall' && !['class', 'id', 'onClick'].includes(n)) continue;
   if (KINDS[k].only && !KINDS[k].only.includes(n)) continue;
   ATOMS.push({ id: `${n}/${k}`, src: n + KINDS[k].v, name: n, dyn: KINDS[k].dyn, ts: !!KINDS[k].ts });
 }
+for (const n of LOOKALIKES) for (const k of ['static', 'dyn']) ATOMS.push({ id: `${n}/${k}`, src: n + KINDS[k].v, name: n, dyn: KINDS[k].dyn, ts: false });
 const SPECIALS = [
   { id: 'spread', src: '{...s1}', special: 'fullprops' },
   { id: 'spreadObj', src: "{...{ id: 'z' }}", special: 'fullprops' },
